@@ -221,6 +221,14 @@ func checkC13(c *C13Case, rec *evid.Rec) (vs []pbt.Violation) {
 			}
 			synctest.Wait()
 		}
+		// A whole Logon in flight is answered (Logon or Reject): with a peer that has stopped
+		// reading, that answer is the write that parks. A second, application send next to it
+		// would queue on the session mutex behind it, which is not a durable wait (the bubble's
+		// clock would stop): so the peer stalls before the Logon arrives and no trigger is sent.
+		stallEarly := c.Cause == "peer-stall" && c.Parked == 0 && c.Partial == -1 && !hasLogon(c.Prefix)
+		if stallEarly {
+			conn.Stall(true)
+		}
 		if c.Partial != 0 {
 			m := nextInbound()
 			if c.Partial > 0 && c.Partial < len(m) {
@@ -248,7 +256,7 @@ func checkC13(c *C13Case, rec *evid.Rec) (vs []pbt.Violation) {
 			conn.Stall(false)
 		case "peer-stall":
 			conn.Stall(true)
-			if c.Parked == 0 {
+			if c.Parked == 0 && !stallEarly {
 				go func() { _ = sess.Send(rig.NewApp("trigger")) }()
 				synctest.Wait()
 			}
